@@ -146,7 +146,7 @@ reg(
     quick={"shards": 16, "timeout_s": 3000, "n_cases": 12, "n1": 4000,
            "required_classes": ["C13.dist_" + d for d in ["normal", "flip", "categorical", "exponential", "geometric", "multivariate_normal",
                                                           "bernoulli", "binomial", "negative_binomial", "gamma", "dirichlet", "multinomial", "zipf",
-                                                          "tfp:Logistic", "custom:shifted_exponential"]] + ["C13.mode_" + m for m in ["sample_shape", "vmap_keys", "modular_vmap", "gen_site", "kwargs"]]},
+                                                          "tfp:Logistic", "custom:shifted_exponential"]] + ["C13.mode_" + m for m in ["sample_shape", "vmap_keys", "modular_vmap", "gen_site", "kwargs", "vmap_mapped_params", "vmap_mapped_kwargs"]]},
     thorough={"shards": 16, "timeout_s": 3 * 3600, "n_cases": 96, "n1": 20000, "required_classes": ["C13.dist_normal", "C13.dist_geometric"]},
 )
 
